@@ -247,6 +247,30 @@ func genC13(env *core.Env, emit func(core.Case)) {
 			Sample: map[string]any{"stream": "foreign-compressed", "answers": nAns, "len": len(d.B)}})
 		env.Count("foreign-compressed/" + connh0(dec))
 	}
+	// big answers: hundreds of records, each owner name a pointer to the question name (the 255-pointer
+	// budget of RFC-abiding decoders is per NAME, not per message)
+	for _, nrec := range []int{255, 256, 300, 700} {
+		idx++
+		d := &gen.DNSBuilder{}
+		d.Header(uint16(r.IntN(65536)), 0x8180, 1, nrec, 0, 0)
+		qlabels := append(gen.RandLabels(r, 2), gen.RandLabel(r))
+		d.Question(r, gen.NamePlain, qlabels, 1, 1)
+		for j := 0; j < nrec; j++ {
+			d.RR(r, gen.NamePtrOnly, nil, 1, 1, uint32(r.IntN(3600)), func() { d.B = append(d.B, 10, byte(j>>8), byte(j), 1) }, 0)
+		}
+		dec := dnsDecodeText(d.B)
+		w := ""
+		if m, err := dns.DecodeMessage(d.B); err != nil {
+			w = fmt.Sprintf("a response with %d answers whose owner names are pointers to the question does not decode: %v", nrec, err)
+		} else if len(m.Answer) != nrec {
+			w = fmt.Sprintf("%d answers decoded, %d sent", len(m.Answer), nrec)
+		}
+		ops := []core.Op{{Line: "dns-decode " + core.Hex(d.B), Kind: 'M', Want: dec, Note: "DecodeMessage of a large compressed response"},
+			{Kind: 'X', Note: "large responses with compressed owner names decode", Want: w}}
+		emit(core.Case{Name: fmt.Sprintf("foreign-large/%d", idx), Stream: "foreign-large", Ops: ops, Key: "foreign-large", Sig: fmt.Sprintf("foreign-large/%d", nrec),
+			Sample: map[string]any{"stream": "foreign-large", "answers": nrec, "len": len(d.B)}})
+		env.Count("foreign-large/" + connh0(dec))
+	}
 	// HTTPS / SVCB records as other encoders write them: SvcParamKeys in increasing order starting with
 	// key 0 (mandatory), keys this package has no field for (dohpath 7, private-use 65000), any target
 	for i := 0; i < env.Pick(300, 4000); i++ {
@@ -299,6 +323,26 @@ func genC13(env *core.Env, emit func(core.Case)) {
 				k := r.IntN(5)
 				kinds += fmt.Sprint(k)
 				rr := randRR(r, k)
+				if k != 3 && len(m.Question) > 0 && r.IntN(3) == 0 {
+					// an answer is usually about the name that was asked - spelled as the zone has it, which
+					// need not be how the query spelled it (0x20 mixed-case queries): the owner is written out
+					// as given, byte for byte
+					q := m.Question[0].Name
+					switch r.IntN(3) {
+					case 0:
+						rr.Name = q
+					case 1:
+						rr.Name = strings.ToUpper(q)
+					default:
+						b := []byte(q)
+						for i := range b {
+							if i%2 == 0 && b[i] >= 'a' && b[i] <= 'z' {
+								b[i] -= 32
+							}
+						}
+						rr.Name = string(b)
+					}
+				}
 				switch sec {
 				case 0:
 					m.Answer = append(m.Answer, rr)
